@@ -83,6 +83,13 @@ impl CBORTaggedDecodable for Envelope {
                     #[cfg(feature = "encrypt")]
                     tags::TAG_ENCRYPTED => {
                         let encrypted = EncryptedMessage::from_untagged_cbor(item.clone())?;
+                        // Accept only the exact encoding of the message: the
+                        // message decoder tolerates (and drops) additional
+                        // array elements, which would let bytes through that
+                        // do not re-encode to themselves.
+                        if encrypted.untagged_cbor() != *item {
+                            bail!("invalid encrypted message")
+                        }
                         let envelope = Self::new_with_encrypted(encrypted)?;
                         Ok(envelope)
                     },
